@@ -87,9 +87,16 @@ fn one(x: &[u8], level: i32, strategy: i32, what: &str, cx: &mut Ctx) -> Check {
     let n = x.len();
     let bound = capi::compress_bound(n);
     vensure!(capi::deflate_bound(n) == bound, "c15:bounds-disagree", "mz_deflateBound({n}) = {} but mz_compressBound({n}) = {bound}", capi::deflate_bound(n));
-    let (rc, total) = capi::deflate_finish_once(x, level, strategy, bound * 2 + 4096)?;
+    // one case in four on a stream object that has been used (Init .. End) before
+    let reuse = (n + level as usize + strategy as usize) % 4 == 3;
+    let (rc, total, written, bound_s) = capi::deflate_finish_once_ex(x, level, strategy, bound * 2 + 4096, reuse)?;
     cx.evals(1);
     vensure!(rc == 1, "c15:finish-once", "mz_deflate(MZ_FINISH) with a huge buffer returned {rc}");
+    vensure!(total == written, "c15:total_out-is-not-what-was-written", "{what}: total_out {total} after mz_deflate(MZ_FINISH) but {written} bytes were written (stream object used before: {reuse})");
+    vensure!(total <= bound_s, format!("c15:bound-exceeded:stream-arg"), "{what}: {n} input bytes at level {level} strategy {strategy} compressed to {total} bytes > mz_deflateBound(stream, {n}) = {bound_s} asked of the stream that did the compression");
+    if reuse {
+        cx.class("stream-object-reused");
+    }
     let sclass = if strategy == 4 { "fixed-strategy" } else { "other-strategy" };
     vensure!(total <= bound, format!("c15:bound-exceeded:{sclass}"), "{what}: {n} input bytes at level {level} strategy {strategy} compressed to {total} bytes > mz_deflateBound({n}) = {bound}");
     if total > n || near_threshold(n) {
